@@ -147,7 +147,13 @@ pub fn run(rep: &mut Rep) {
                 let warm_ok = sim.ops[warm].out.as_ref().map(|o| o.is_ok()).unwrap_or(false);
                 // every second oversized case with Receive Maximum 2 has a QoS 1 publish in flight already: the refusal must
                 // neither take nor hand back a slot (one further publish fits, not two)
-                let inflight_first = m.map(|m| l > m && m >= 16).unwrap_or(false) && r == 2 && (idx / 2) % 2 == 1;
+                // ... and every third one with Receive Maximum 1 finds the window used up: for an oversized request C12 still
+                // names the outcome - MaximumPacketSizeExceeded (C10's "QuotaExceeded at a full window" speaks of publishes that could
+                // be sent at all; C10's own check accepts either answer in this corner, C12's holds the library to C12's text)
+                let inflight_first = m.map(|m| l > m && m >= 16).unwrap_or(false) && ((r == 2 && (idx / 2) % 2 == 1) || (r == 1 && (idx / 2) % 3 == 1));
+                if inflight_first && r == 1 {
+                    rep.add("oversized_requests_at_a_full_window", 1);
+                }
                 if inflight_first {
                     sim.start_op(0, OpSpec::Publish(PubSpec::simple(1, "q", b"")));
                     sim.settle();
